@@ -236,7 +236,12 @@ func Empty(v reflect.Value) bool {
 			v = v.Elem()
 			continue
 		case reflect.String, reflect.Slice, reflect.Array, reflect.Map:
-			return v.Len() == 0
+			if v.Len() == 0 {
+				return true
+			}
+			// not zero-length: a custom IsZero still decides (gotype/tags.go:
+			// "If the IsZero method is true and omitempty has been set, the
+			// field will be ignored")
 		}
 		break
 	}
